@@ -12,7 +12,7 @@ import numpy as np
 from hypothesis import strategies as st
 
 from vlib.runner import Sub, Violation, Inconclusive, ok
-from vlib.util import numpy_seed, rng_of
+from vlib.util import numpy_seed, rng_of, fl
 from vlib import wbsys
 
 PROPERTY_ID = "C04"
@@ -90,8 +90,13 @@ def check_periodic(case):
 
 gauge_case = st.fixed_dictionaries(dict(
     model=wbsys.model_params_st(max_wann=3, max_npairs=4, rmax=1, keys=("Ham", "AA", "BB", "CC")),
-    kind=st.sampled_from(["double_spin", "double_spin", "block2"]),
+    # 'kramers': time-reversal symmetric spinful model (construction of props/c08_parities.py) evaluated at a
+    # time-reversal invariant momentum: genuine Kramers doublets whose two partners are NOT copies of each other
+    kind=st.sampled_from(["double_spin", "kramers", "kramers", "block2"]),
     k=wbsys.kpoint_st(),
+    trim=st.lists(st.sampled_from([0.0, 0.5]), min_size=3, max_size=3),
+    lat=wbsys.lattice_st(kinds=["triclinic", "generic"]),
+    cgen=st.lists(st.lists(fl(0.0, 0.9), min_size=3, max_size=3), min_size=3, max_size=3),
     gs=st.lists(st.integers(0, 2 ** 31), min_size=2, max_size=2, unique=True),
     Ef=st.lists(st.sampled_from([-1.5, -0.7, -0.2, 0.1, 0.45, 0.9, 1.6]), min_size=1, max_size=3, unique=True),
 ))
@@ -99,6 +104,11 @@ gauge_case = st.fixed_dictionaries(dict(
 
 def degenerate_system(case):
     """system with exact degeneracies everywhere; returns (system, multiplicity)"""
+    if case["kind"] == "kramers":
+        from props.c08_parities import build_tr
+        m = build_tr(dict(lat=case["lat"], norb=min(3, max(2, case["model"]["nw"])), rs=case["model"]["rs"],
+                          cgen=case["cgen"]), True)
+        return wbsys.to_system(m, spinor=True), m
     model = wbsys.make_model(case["model"])
     if case["kind"] == "block2":
         # two identical decoupled copies of the model (co-centred): every band exactly twice, no spin structure
@@ -117,11 +127,18 @@ def degenerate_system(case):
 
 def check_gauge(case):
     import wannierberri as wb
-    from wannierberri.calculators import tabulate, static
+    from wannierberri.calculators import tabulate, static, dynamic, sdct
     from wannierberri.data_K import get_data_k_class_from_system
+    from vlib.runner import read_known
+    known = read_known(PROPERTY_ID)
     system, model = degenerate_system(case)
-    k = np.array(case["k"], dtype=float)
+    kramers = case["kind"] == "kramers"
+    k = np.array(case["trim"] if kramers else case["k"], dtype=float)
     E = model.bands(k)
+    if kramers:
+        if np.max(np.abs(E[0::2] - E[1::2])) > 1e-10:
+            raise RuntimeError("harness model has no Kramers degeneracy at a TRIM point")
+        E = E[0::2]
     d = np.diff(np.sort(E))
     if len(d) and np.any((d > 1e-9) & (d < 1e-3)):
         raise Inconclusive("bands of the parent model closer than 1e-3 (accidental near-degeneracy)")
@@ -139,6 +156,19 @@ def check_gauge(case):
              "ohmic": static.Ohmic_FermiSea(Efermi=Ef, use_factor=False), "ohmic_surf": static.Ohmic_FermiSurf(Efermi=Ef, use_factor=False),
              "bd": static.BerryDipole_FermiSea(Efermi=Ef, use_factor=False), "morb": static.Morb(Efermi=Ef, use_factor=False),
              "cumdos": static.CumDOS(Efermi=Ef, use_factor=False), "gme_orb": static.GME_orb_FermiSea(Efermi=Ef, use_factor=False)}
+        # integrated dynamic (frequency dependent) calculators
+        om = np.array([0.45, 1.3])
+        dkw = dict(Efermi=Ef, omega=om, kBT=0.05)
+        c["dOptCond"] = dynamic.OpticalConductivity(**dkw)
+        c["dJDOS"] = dynamic.JDOS(**dkw)
+        c["dInjectionCurrent"] = dynamic.InjectionCurrent(**dkw)
+        c["dShiftCurrent"] = dynamic.ShiftCurrent(sc_eta=0.1, **dkw)
+        if kramers:     # the TR model carries the spin-current matrices and FF
+            c["dSHC_ryoo"] = dynamic.SHC(SHC_type="ryoo", **dkw)
+            c["dSHC_qiao"] = dynamic.SHC(SHC_type="qiao", **dkw)
+            c["shc"] = static.SHC(Efermi=Ef, use_factor=False)
+            c["dSDCT"] = sdct.SDCT(**dkw)
+            c["tSpinBerry"] = tabulate.SpinBerry()
         if spinful:
             c["tSpin"] = tabulate.Spin()
             c["spin"] = static.Spin(Efermi=Ef, use_factor=False)
@@ -165,15 +195,24 @@ def check_gauge(case):
         H = model.Hk(k)
     if np.max(np.abs(base["tE"][0] - np.repeat(np.sort(E), 2))) > 1e-9 * (1 + np.max(np.abs(E))):
         raise Violation("energies", "doubled system does not have every band twice")
+    # natural unit of each result: 1 for tabulators / static calculators built with use_factor=False, the constant
+    # prefactor for dynamic calculators (their results carry it), so that absolute rounding floors are meaningful
+    unit = {name: (abs(getattr(c, "constant_factor", 1.0)) if name.startswith("d") else 1.0) for name, c in calcs().items()}
+    found = []
     for i, r in enumerate(results[1:]):
         for name in base:
             a, b = base[name], r[name]
-            s = 1 + max(np.max(np.abs(a)), np.max(np.abs(b)))
+            s = unit[name] + max(np.max(np.abs(a)), np.max(np.abs(b)))
             dd = float(np.max(np.abs(a - b)))
-            if dd > tol * s:
-                raise Violation(f"gauge:{name}", f"random_gauge seed {case['gs'][i]} changes '{name}' by {dd:.3e} "
-                                                 f"(scale {s:.3e}, tol {tol:.1e}), kind={case['kind']}")
-    return ok(rotated, case["kind"], f"nw={model.nw}", "rotated" if rotated else "not-rotated")
+            if dd > tol * s and name not in [f[0] for f in found]:
+                found.append((name, f"random_gauge seed {case['gs'][i]} changes '{name}' by {dd:.3e} "
+                                    f"(scale {s:.3e}, tol {tol:.1e}), kind={case['kind']}"))
+    new = [f for f in found if f"gauge:gauge:{f[0]}" not in known]
+    if new:
+        raise Violation(f"gauge:{new[0][0]}", new[0][1] + (f" [also {[f[0] for f in found[1:]]}]" if len(found) > 1 else ""))
+    # listed findings are excluded from the verdict (counted, reported by the runner); the search continues behind them
+    return ok(rotated, case["kind"], f"nw={model.nw}", "rotated" if rotated else "not-rotated",
+              known=[f"gauge:{f[0]}" for f in found])
 
 
 SUBS = [
